@@ -54,6 +54,10 @@ func TestVsReplayC18(t *testing.T) {
 	switch {
 	case m.Harness == "child_private":
 		parent := NewExtendedKey([]byte{1, 2, 3, 4}, append([]byte{}, key...), cc, []byte{9, 9, 9, 9}, depth, 7, true)
+		if _, ok := m.Model["earlier-index"]; ok {
+			// the counterexample derives another (normal) child from the same key object first
+			parent.Child(uint32(m.u("earlier-index")) & (HardenedKeyStart - 1))
+		}
 		child, cerr := parent.Child(idx)
 		// BIP32 reference
 		n := pocec.S256().N
